@@ -23,12 +23,22 @@ BUILTIN_METHOD_NAMES = {
 }
 
 
+TOTAL_CONSUMERS = {'list', 'tuple', 'sorted', 'set', 'frozenset', 'sum', 'any', 'all', 'max',
+                   'min', 'dict', 'len'}
+
+
 class CallMixin(object):
     # --------------------------------------------------------------- ev_Call
     def ev_Call(self, e):
         fn = self.ev(e.func)
         args = []
+        total = (isinstance(e.func, ast.Name) and e.func.id in TOTAL_CONSUMERS) or \
+            (isinstance(e.func, ast.Attribute) and e.func.attr in ('join', 'extend', 'update'))
         for a in e.args:
+            if isinstance(a, ast.GeneratorExp) and total:
+                # consumed entirely on the spot: same as the list comprehension
+                args.append(self.comprehension(a, [a.elt], 'list'))
+                continue
             if isinstance(a, ast.Starred):
                 v = self.ev(a.value)
                 if isinstance(v, TupleT):
@@ -74,6 +84,14 @@ class CallMixin(object):
             return self.method_on_value(fn.recv, fn.name, args, kwargs, node)
         if isinstance(fn, Attr):
             return self.method_on_value(fn.base, fn.name, args, kwargs, node)
+        if isinstance(fn, Call) and fn.fn == 'functools.partial' and fn.args:
+            # partial(f, *a, **k)(*b, **l) = f(*a, *b, **k, **l)
+            kw = dict(fn.kwargs)
+            kw.update(kwargs)
+            return self.call(fn.args[0], list(fn.args[1:]) + list(args), kw, node)
+        if isinstance(fn, Call) and fn.fn in ('staticmethod', 'classmethod') and \
+                len(fn.args) == 1:
+            return self.call(fn.args[0], list(args), kwargs, node)
         if isinstance(fn, Obj):
             mem = self.find_member(fn.cls, '__call__')
             if mem and mem[0] == 'method':
@@ -570,6 +588,46 @@ class CallMixin(object):
             return ListObj(items, getattr(args[0], 'open', False), self.cur)
         return Call('reversed', tuple(args), (), None)
 
+    def ext_functools_partial(self, args, kwargs, node):
+        return Call('functools.partial', tuple(args), tuple(sorted(kwargs.items())), None)
+
+    def ext_staticmethod(self, args, kwargs, node):
+        return Call('staticmethod', tuple(args), (), None)
+
+    def ext_classmethod(self, args, kwargs, node):
+        return Call('classmethod', tuple(args), (), None)
+
+    def ext_itertools_chain(self, args, kwargs, node):
+        return Call('itertools.chain', tuple(args), (), None)
+
+    def ext_itertools_chain_from_iterable(self, args, kwargs, node):
+        return Call('itertools.chain.from_iterable', tuple(args), (), None)
+
+    def ext_next(self, args, kwargs, node):
+        """next(it[, default]): the iterator is advanced to its first element."""
+        if not args:
+            return NotImplemented
+        it = args[0]
+        end = self.join_node(node, 'next')
+        results = []
+
+        def first(val):
+            results.append((val, self.cur))
+            self.goto(end)
+        self.iterate(it, first, set(), node)
+        if self.cur is not None:
+            if len(args) > 1:
+                results.append((args[1], self.cur))
+                self.goto(end)
+            else:
+                n = self.emit('raise', node, {'classes': ('StopIteration',)})
+                self.route_raise(n, ['StopIteration'], soft=True)
+                self.cur = None
+        self.land(end)
+        if not results:
+            return Unknown('next-of-nothing')
+        return join(*results)
+
     def ext_iter(self, args, kwargs, node):
         return args[0] if len(args) == 1 else NotImplemented
 
@@ -882,7 +940,32 @@ class CallMixin(object):
                     recv.value.count('{') == len(args):
                 return self.fold_fmt(recv.value.replace('%', '%%').replace('{}', '%s'),
                                      tuple(args))
-            return NotImplemented
+            # named / numbered plain fields ({name}, {0}); no conversions or specs
+            import string
+            try:
+                pieces = list(string.Formatter().parse(recv.value))
+            except ValueError:
+                return NotImplemented
+            tmpl, fargs, auto = '', [], 0
+            for lit, field, spec, conv in pieces:
+                tmpl += lit.replace('%', '%%')
+                if field is None:
+                    continue
+                if spec or conv:
+                    return NotImplemented
+                if field == '':
+                    if auto >= len(args):
+                        return NotImplemented
+                    fargs.append(args[auto])
+                    auto += 1
+                elif field.isdigit() and int(field) < len(args):
+                    fargs.append(args[int(field)])
+                elif field in kwargs:
+                    fargs.append(kwargs[field])
+                else:
+                    return NotImplemented
+                tmpl += '%s'
+            return self.fold_fmt(tmpl, tuple(fargs))
         if name == 'join' and len(args) == 1:
             lst = self.materialise(args[0], node)
             if isinstance(lst, ListObj) and not lst.open and lst.items and \
